@@ -1,6 +1,7 @@
 import PMV.Generated.Names
 import PMV.Proofs.Rename
 import PMV.Proofs.RenameResolve
+import PMV.Proofs.Resolve
 /-
   C03 — Renaming preserves which binding every name refers to.
   Proved here (on the model of NameAssigner over abstract bindings, tied to the code by feeding the
@@ -8,8 +9,13 @@ import PMV.Proofs.RenameResolve
     * the assigner never introduces a clash between bindings whose reservation scopes intersect;
     * new names come from the generator table, which contains no keyword and no builtin name;
     * pinned bindings keep their names.
-  Not proved yet: that the scope analysis (mapper / bind / resolve) puts every namespace on Python's
-  lookup path into the reservation scope (T03.3/T03.4) — decided by the alpha-equivalence oracle only.
+  Proved on the model of `resolve_names.get_binding` / `util.get_nonlocal_namespace` over the dumped namespace tree (kind,
+  parent, bindings, global and nonlocal declarations of every namespace; the correspondence stage asks both for every
+  name use of every program): the binding that answers a use is the first one on Python's lookup path, and no class body
+  other than the one the use is in is ever consulted (T03.3).
+  Not proved: that the scope analysis puts every namespace on that path into the reservation scope (hypothesis `cover` of
+  T03.4) — checked on the real binding structures against the independent scoping specification, and by the
+  alpha-equivalence oracle.
 -/
 namespace PMV.C03
 open PMV.Rename
@@ -84,6 +90,38 @@ theorem comprehension_names_reserved_in_enclosing (b : Binding) (ns : Ns) (h : n
   unfold Binding.scope
   rw [List.mem_eraseDups]
   exact List.mem_cons_of_mem _ (List.mem_append_left _ h)
+
+/-! ### T03.3: which binding answers a use (model of `get_binding`) -/
+
+/-- T03.3a: for every namespace tree, name and namespace, `get_binding` answers with the first scope on Python's lookup path
+    that binds the name: the scope itself unless it declares the name `global` (then the module alone) or `nonlocal` (then
+    it is skipped), then the enclosing scopes that are not class bodies, the module last; `none` means the module does not
+    bind it either (a builtin or an unresolved name, which is never renamed). -/
+theorem get_binding_is_python_lookup (t : Resolve.Tree) (x : String) (fuel n : Nat) :
+    Resolve.getBinding t x fuel n = (Resolve.lookupPath t x fuel n).find? fun a => (Resolve.info t a).bindings.contains x :=
+  Resolve.getBinding_spec t x fuel n
+
+/-- T03.3b: apart from the scope the use itself is in, no class body is consulted: a name bound in a class body is not
+    visible from the functions, lambdas and comprehensions nested in it, so it never captures their uses. -/
+theorem class_bodies_skipped (t : Resolve.Tree) (h : Resolve.WFTree t) (x : String) (fuel n : Nat) (hn : n ≤ t.length) :
+    ∀ a ∈ (Resolve.lookupPath t x fuel n).drop 1, (Resolve.info t a).kind ≠ .class_ :=
+  Resolve.lookupPath_skips_classes t h x fuel n hn
+
+/-- the namespace `get_nonlocal_namespace` returns is never a class body -/
+theorem nonlocal_namespace_not_class (t : Resolve.Tree) (h : Resolve.WFTree t) (n : Nat) (hn : n ≤ t.length) :
+    (Resolve.info t (Resolve.nonlocalNs t t.length n)).kind ≠ .class_ :=
+  Resolve.nonlocalNs_not_class t h t.length n hn
+
+-- Non-vacuity: module (0) and class (1) both bind `value`; a method (2) of the class uses it: the module's binding answers,
+-- in the class body itself the class's; a method that declares it `global` reaches the module, one nested in a function (3→4)
+-- that declares it `nonlocal` reaches function 3.
+example :
+    let t : Resolve.Tree := [⟨.module, 0, ["value", "Holder", "outer"], [], []⟩, ⟨.class_, 0, ["value", "method"], [], []⟩,
+      ⟨.function, 1, ["self"], [], []⟩, ⟨.function, 0, ["value", "inner"], [], []⟩, ⟨.function, 3, [], [], ["value"]⟩,
+      ⟨.function, 1, [], ["value"], []⟩]
+    Resolve.getBinding t "value" 8 2 = some 0 ∧ Resolve.getBinding t "value" 8 1 = some 1 ∧ Resolve.getBinding t "value" 8 4 = some 3
+    ∧ Resolve.getBinding t "value" 8 5 = some 0 ∧ Resolve.getBinding t "print" 8 2 = none ∧ Resolve.lookupPath t "value" 8 2 = [2, 0] := by
+  decide +kernel
 
 -- Non-vacuity for T03.5: `outer` (home 0) is read through function 1 by a lambda (2); the comprehension variable
 -- (home 3, enclosed by function 1) would be free to take "A" without the enclosing rule; with it, it gets "B".
